@@ -320,14 +320,20 @@ impl FileSystem for MemoryFS {
     }
 
     fn remove_dir(&self, path: &str) -> VfsResult<()> {
-        if self.read_dir(path)?.next().is_some() {
+        let mut handle = self.handle.write().unwrap();
+        let file = handle.files.get(path).ok_or(VfsErrorKind::FileNotFound)?;
+        if file.file_type != VfsFileType::Directory {
+            return Err(VfsErrorKind::Other("Not a directory".into()).into());
+        }
+        let prefix = format!("{}/", path);
+        if handle
+            .files
+            .keys()
+            .any(|candidate| candidate.starts_with(&prefix))
+        {
             return Err(VfsErrorKind::Other("Directory to remove is not empty".into()).into());
         }
-        let mut handle = self.handle.write().unwrap();
-        handle
-            .files
-            .remove(path)
-            .ok_or(VfsErrorKind::FileNotFound)?;
+        handle.files.remove(path);
         Ok(())
     }
 }
